@@ -362,9 +362,12 @@ def names_check():
 
 def ops_check(a, c):
     try:
+        big = int('3' + '00')             # 300, 1000, 2**40: ints outside CPython's small-int cache, each made twice
         pairs = [(-a, X.Negation(a)), (a + c, X.Add(a, c)), (a - c, X.Minus(a, c)), (a * c, X.Multiply(a, c)),
                  (a / c, X.Divide(a, c)), (a ** c, X.Power(a, c)), (a ** 3, X.NthPower(a, 3)), (a ** 2.0, X.NthPower(a, 2)),
-                 (a ** 1, X.NthPower(a, 1))]
+                 (a ** 1, X.NthPower(a, 1)), (a ** big, X.NthPower(a, int('300'))), (a ** 300.0, X.NthPower(a, 300)),
+                 (a ** float('1000'), X.NthPower(a, 10 ** 3)), (a ** (2 ** 40), X.NthPower(a, int(2.0 ** 40))),
+                 (X.NthRoot(a, 257.0), X.NthRoot(a, int('257')))]
         for got, want in pairs:
             if not (got == want) or repr(got) != repr(want) or got.__class__ is not want.__class__:
                 return 'bad: %r is not %r' % (got, want)
@@ -1213,7 +1216,8 @@ def arm(limit):
 
 
 def main():
-    sys.setrecursionlimit(20000)
+    if os.environ.get('VERIF_RECLIMIT') != 'default':
+        sys.setrecursionlimit(20000)      # 'default': the interpreter's own limit of 1000 frames, as a user has it
     pre = os.environ.get('VERIF_PRECREATE')
     if pre:
         import random as _r
